@@ -629,7 +629,12 @@ class SF:
                 q = z3.Real(EX.fresh_name('quo'))
                 EX.apps[key] = q
                 EX._keep.append((canon(a.v), canon(bv)))
-                EX.add_axiom(z3.Implies(bv != 0, q * bv == a.v), 'div: q*b==a (b!=0)')
+                if AX.get('div_axiom', True):
+                    EX.add_axiom(z3.Implies(bv != 0, q * bv == a.v), 'div: q*b==a (b!=0)')
+                else:
+                    # over-approximation that keeps queries linear: only the sign of the quotient is stated
+                    EX.add_axiom(z3.Implies(bv != 0, z3.And((q > 0) == z3.Or(z3.And(a.v > 0, bv > 0), z3.And(a.v < 0, bv < 0)), (q == 0) == (a.v == 0))),
+                                 'div by a symbolic divisor: only sign(q) = sign(a)*sign(b) is stated in this harness (over-approximation)')
         if binf is not False:
             q = z3.If(bz3(binf), _ZERO, q)
         return SF(bsimp(nan), q, pinf, ninf)
@@ -1116,7 +1121,7 @@ def uf_app(name, args, mono=0):
 # everything switched on is listed in the evidence under `axioms`)
 AX_DEFAULT = {'sqrt_zero': True, 'sqrt_one': False, 'sqrt_exact': False, 'sqrt_mono': False,
               'atan_mono': True, 'atan2_scale': False, 'atan2_turn': False, 'odd_even': True, 'pythag': False,
-              'congruence': 'full', 'f32_store_round': False}
+              'congruence': 'full', 'f32_store_round': False, 'div_axiom': True}
 AX = dict(AX_DEFAULT)
 
 
